@@ -12,7 +12,7 @@
    discipline (protocol_prefix_ok: every prefix = every crash instant); the
    model's own add / update programs follow it (C08_*_follows_protocol), and
    the check feeds the traces observed with strace to the same checker. *)
-From Whawty Require Import Bytes Record Store StoreTrace Crash Crash_proofs CrashX_proofs.
+From Whawty Require Import Bytes Record Store StoreTrace Crash Crash_proofs CrashX_proofs Writers Writers_proofs.
 Open Scope N_scope.
 
 Theorem C08_crash_safe_prefix : forall f reserve d0 evs c,
@@ -127,3 +127,43 @@ Example C08_nonvacuous :
     [ECreate (LTmpFile (str "t1")); EWrite (LTmpFile (str "t1")) (str "line"); EFsync (LTmpFile (str "t1"));
      EWrite (LFile (str "bob.user")) (str "line")] = false.
 Proof. vm_compute. auto. Qed.
+
+(* ---- several writer PROCESSES on one directory (the agent and the command line, two agents) ----
+   "Concurrent readers in other processes see the same three possibilities" - also when the other
+   process is a second WRITER.  Each process runs the write discipline (any prefix of it, clean-up
+   included); the directory sees an arbitrary interleaving (merge) of their system calls.  The one
+   premise that ties the two together is that they never use the same temp name - which is what
+   O_EXCL on the temp file provides and what every traced add / update is checked for
+   (tracedriver: "opened with O_CREAT but without O_EXCL").  Volatile view only (process kills);
+   power loss with two writers in flight is not covered. *)
+Theorem C08_two_updaters_kill_safe : forall f d0 evs1 evs2 evs,
+  base_quiescent d0 -> target_pre f false d0 ->
+  protocol_prefix_x_ok f false evs1 = true -> protocol_prefix_x_ok f false evs2 = true ->
+  tmp_fresh evs1 d0 -> tmp_fresh evs2 d0 -> tmp_disjoint evs1 evs2 ->
+  merge evs1 evs2 evs ->
+  ( vol_file (exec_events d0 evs) f = vol_file d0 f
+    \/ (renamed_into f evs1 /\ vol_file (exec_events d0 evs) f = Some (tmp_data evs1))
+    \/ (renamed_into f evs2 /\ vol_file (exec_events d0 evs) f = Some (tmp_data evs2)) )
+  /\ (forall g, g <> f -> vol_file (exec_events d0 evs) g = vol_file d0 g).
+Proof. exact two_updaters_kill_safe. Qed.
+Print Assumptions C08_two_updaters_kill_safe.
+
+Theorem C08_two_writers_distinct_kill_safe : forall f1 rv1 f2 rv2 d0 evs1 evs2 evs,
+  base_quiescent d0 -> f1 <> f2 -> target_pre f1 rv1 d0 -> target_pre f2 rv2 d0 ->
+  protocol_prefix_x_ok f1 rv1 evs1 = true -> protocol_prefix_x_ok f2 rv2 evs2 = true ->
+  tmp_fresh evs1 d0 -> tmp_fresh evs2 d0 -> tmp_disjoint evs1 evs2 ->
+  merge evs1 evs2 evs ->
+  vol_file (exec_events d0 evs) f1 = vol_file (exec_events d0 evs1) f1 /\
+  vol_file (exec_events d0 evs) f2 = vol_file (exec_events d0 evs2) f2 /\
+  (forall g, g <> f1 -> g <> f2 -> vol_file (exec_events d0 evs) g = vol_file d0 g).
+Proof. exact two_writers_distinct_kill_safe. Qed.
+Print Assumptions C08_two_writers_distinct_kill_safe.
+
+Example C08_two_updaters_example :
+  let f := str "u.user" in
+  let w (t data : bytes) := [ECreate (LTmpFile t); EWrite (LTmpFile t) data; EFsync (LTmpFile t);
+                   ERename (LTmpFile t) (LFile f); EFsync LBaseDir; EUnlink (LTmpFile t)] in
+  protocol_prefix_x_ok f false (w (str "t1") (str "one")) = true /\
+  protocol_prefix_x_ok f false (w (str "t2") (str "two")) = true /\
+  tmp_disjoint (w (str "t1") (str "one")) (w (str "t2") (str "two")).
+Proof. exact two_updaters_example. Qed.
